@@ -43,11 +43,14 @@ claim("C19", "other",
       "Partial: interval analysis of the sample count at every `// (num-1)` divisor and negative index of real_samples from dominating facts; product generators forward every shared option and axis k's size/bounds to the k-th inner call. Properties of returned arrays are not decided.",
       "trusted: dominance in structured code; 4 known findings (unguarded divisors/index) are listed in known_findings.json",
       "interval analysis over dominating conditions + call-site argument forwarding check", "DESIGN.md §3/C19")
+claim("C10", "other",
+      "Decides conformance of every copy of the error-free transformations (fpa, algorithms, utils; all fast/scale/fix_overflow/default-C option combinations) to catalogued proven algorithms by symbolic dataflow extraction and comparison of normal forms under exact algebra; splitter constants 2^ceil(p/2)+1 at all sites; option plumbing of apmath wrappers. Exactness is the cited theorem, not re-proved; domains not decided.",
+      "trusted: catalogue sa/oracles/eft_reference.py with citations; exactness of normalising identities in RN arithmetic; power-of-two splitter variant accepted without citation",
+      "symbolic dataflow extraction of straight-line kernels + normal-form equality against a catalogue", "DESIGN.md §3/C10")
 for p, why in dict(
     C01="bounds ULP error of libm-based formulas over all complex inputs: a numeric quantity no static argument in reach can bound",
     C02="same on the real line; float32 exhaustion is execution, not static analysis",
-    C03="(not built yet)", C04="(not built yet)", C08="(not built yet)",
-    C10="(not built yet)", C12="(not built yet)",
+    C03="(not built yet)", C04="(not built yet)", C08="(not built yet)", C12="(not built yet)",
     C14="metric laws of integer arithmetic on runtime bit patterns; nothing structural beyond a width table",
 ).items():
     na(p, why)
